@@ -1,0 +1,8 @@
+//go:build verif
+
+package bstream
+
+import "time"
+
+// VerifC17SetTripperNow replaces the clock of a RealtimeTripper (verification harness only).
+func VerifC17SetTripperNow(t *RealtimeTripper, now func() time.Time) { t.nowFunc = now }
